@@ -1,0 +1,5 @@
+//go:build !verif
+
+package gsfa
+
+func vh(point string) {}
